@@ -98,7 +98,7 @@ func (c02) Plan(tier string, seed int64) []core.Scenario {
 		}
 		out = append(out, core.Sc("kv").WithS("transport", tr).WithN("g", 3+i%5).WithN("ops", 6+i%7).WithN("noise", i%3))
 	}
-	for i := 0; i < 6; i++ {
+	for i := 0; i < 12; i++ {
 		out = append(out, core.Sc("confused").WithN("variant", i))
 	}
 	// a cancelled call whose handler ignores the cancellation for a while and answers late
@@ -262,7 +262,7 @@ func (c02) acrossReconnect(sc core.Scenario, r *core.R) {
 	}
 	bg := context.Background()
 	var mu sync.Mutex
-	var outs []*Outcome
+	var outs, retried []*Outcome
 	stop := make(chan struct{})
 	var wg sync.WaitGroup
 	for w := 0; w < sc.I("workers"); w++ {
@@ -277,8 +277,11 @@ func (c02) acrossReconnect(sc core.Scenario, r *core.R) {
 				}
 				t := Tok("x")
 				o := Go(t, func() (string, error) { return cl.Echo(bg, t, "") })
+				t2 := Tok("y")
+				o2 := Go(t2, func() (string, error) { return cl.EchoR(bg, t2, "") }) // retry-tagged: must come back with its own result
 				mu.Lock()
 				outs = append(outs, o)
+				retried = append(retried, o2)
 				mu.Unlock()
 				o.Wait(300 * time.Millisecond) // keep issuing even if one call is stuck
 				time.Sleep(time.Millisecond)
@@ -310,6 +313,18 @@ func (c02) acrossReconnect(sc core.Scenario, r *core.R) {
 		}
 		if e := env.Svc.Enters(o.Tok); e > 1 {
 			r.Violate("exec-count", "call %s executed %d times", o.Tok, e)
+		}
+	}
+	mu.Lock()
+	rs := append([]*Outcome(nil), retried...)
+	mu.Unlock()
+	for _, o := range rs {
+		if !o.Wait(2 * core.Grace) {
+			r.Violate("response-dropped", "retry-tagged call %s issued around a reconnect never returned although the link is healthy again; events: %s", o.Tok, core.Log.Tail(30))
+			break
+		}
+		if o.Err != nil || o.Val != svc.Reply(o.Tok) {
+			r.Violate("wrong-response", "retry-tagged call %s got (%q, %v) instead of its own result", o.Tok, o.Val, o.Err)
 		}
 	}
 	r.Key(fmt.Sprintf("across-reconnect w=%d fk=%d sig=%s", sc.I("workers"), sc.I("fk"), core.Log.Signature()[:6]), failed > 0)
@@ -630,10 +645,14 @@ func (c02) confused(sc core.Scenario, r *core.R) {
 			otherID = nil
 		}
 		resp := map[string]interface{}{"jsonrpc": "2.0", "id": otherID, "result": "R:FOREIGN"}
+		if v >= 6 {
+			// the crossed-over reply is an error object produced for another call
+			resp = map[string]interface{}{"jsonrpc": "2.0", "id": otherID, "error": map[string]interface{}{"code": 1, "message": "FOREIGN-FAILURE"}}
+		}
 		b, _ := json.Marshal(resp)
 		return b
 	}
-	if v < 3 {
+	if v%6 < 3 {
 		closer, err = jsonrpc.NewCustomClient("S", []interface{}{&cl}, func(ctx context.Context, body []byte) (io.ReadCloser, error) {
 			return io.NopCloser(bytes.NewReader(mutate(body))), nil
 		})
@@ -658,7 +677,10 @@ func (c02) confused(sc core.Scenario, r *core.R) {
 	if val != "" {
 		r.Violate("foreign-id-accepted", "variant %d: a reply carrying a different id leaked its value %q to the caller (err=%v)", v, val, cerr)
 	}
+	if cerr != nil && strings.Contains(cerr.Error(), "FOREIGN-FAILURE") {
+		r.Violate("foreign-id-accepted", "variant %d: an error reply carrying a different id was delivered to the caller as its own error: %v", v, cerr)
+	}
 	r.Key(fmt.Sprintf("confused v%d", v), true)
 	r.Obs("confused_replies", 1)
-	r.Sample(map[string]interface{}{"transport": map[bool]string{true: "custom", false: "http"}[v < 3], "reply_id": []string{"other number", "string spelling of the number", "null"}[v%3], "caller_error": errStr(cerr)})
+	r.Sample(map[string]interface{}{"transport": map[bool]string{true: "custom", false: "http"}[v%6 < 3], "reply_kind": map[bool]string{true: "error object", false: "result"}[v >= 6], "reply_id": []string{"other number", "string spelling of the number", "null"}[v%3], "caller_error": errStr(cerr)})
 }
